@@ -1,0 +1,58 @@
+//go:build verif
+
+// Contracts for the deductive verifier in /verif (comment-only file; compiled
+// only with -tags verif and declares nothing).
+
+package constant
+
+//@ # ---------------------------------------------------------------- C09 ---
+//@ # isIntLit(s, v): s is the literal the printer may choose for the value v of a non-boolean integer type
+//@ spec isIntLit(s string, v int) bool = iscanon(s, 10, v) || (v >= 4096 && len(s) > 3 && s[0:3] == "u0x" && isnum(s[3:len(s)], 16) && numval(s[3:len(s)], 16) == v && s[3] != '-' && s[3] != '+')
+
+//@ func (*Int).Ident
+//@   props C09
+//@   requires c != nil && c.Typ != nil && c.X != nil
+//@   behaviour boolean:
+//@     requires c.Typ.BitSize == 1 && (bigval(c.X) == 0 || bigval(c.X) == 1 || bigval(c.X) == -1)
+//@     ensures  (bigval(c.X) != 0 ==> result == "true") && (bigval(c.X) == 0 ==> result == "false")
+//@   behaviour integer:
+//@     requires c.Typ.BitSize != 1
+//@     ensures  isIntLit(result, bigval(c.X))
+
+//@ func intEntropy
+//@   props C09
+//@   requires x != nil && (base == 10 || base == 16)
+//@   assigns nothing
+//@   loop 0: invariant 0 <= i && i <= len(s) && iscanon(s, base, bigval(x))
+//@   loop 1: invariant 0 <= i && i <= base
+
+//@ func NewIntFromString
+//@   props C09
+//@   requires typ != nil && types.I1 != nil && types.I1.BitSize == 1
+//@   requires True != nil && False != nil && True.X != nil && False.X != nil && bigval(True.X) == 1 && bigval(False.X) == 0
+//@   behaviour roundtrip(ghost v int):
+//@     requires typ.BitSize != 1 && isIntLit(s, v)
+//@     ensures  result1 == nil && result0 != nil && result0.Typ == typ && result0.X != nil && bigval(result0.X) == v
+//@   behaviour booltrue:
+//@     requires s == "true" && typ.BitSize == 1
+//@     ensures  result1 == nil && result0 != nil && result0.X != nil && bigval(result0.X) == 1
+//@   behaviour boolfalse:
+//@     requires s == "false" && typ.BitSize == 1
+//@     ensures  result1 == nil && result0 != nil && result0.X != nil && bigval(result0.X) == 0
+//@   behaviour boolwrongtype:
+//@     requires (s == "true" || s == "false") && typ.BitSize != 1
+//@     ensures  result1 != nil && result0 == nil
+//@   behaviour decimal:
+//@     requires isnum(s, 10)
+//@     ensures  result1 == nil && result0 != nil && result0.Typ == typ && result0.X != nil && bigval(result0.X) == numval(s, 10)
+//@   behaviour unsignedhex:
+//@     requires len(s) > 3 && s[0:3] == "u0x" && isnum(s[3:len(s)], 16)
+//@     ensures  result1 == nil && result0 != nil && result0.Typ == typ && result0.X != nil && bigval(result0.X) == numval(s[3:len(s)], 16)
+//@   behaviour signedhex(ghost h int):
+//@     requires len(s) > 3 && s[0:3] == "s0x" && isnum(s[3:len(s)], 16) && numval(s[3:len(s)], 16) == h
+//@     requires typ.BitSize >= 1 && typ.BitSize <= 16777215 && 0 <= h && h < pow2(typ.BitSize)
+//@     ensures  result1 == nil && result0 != nil && result0.Typ == typ && result0.X != nil
+//@     ensures  bigval(result0.X) == ite(h >= pow2(typ.BitSize - 1), h - pow2(typ.BitSize), h)
+//@   behaviour malformed:
+//@     requires !isnum(s, 10) && s != "true" && s != "false" && !(len(s) >= 3 && (s[0:3] == "u0x" || s[0:3] == "s0x"))
+//@     ensures  result1 != nil && result0 == nil
